@@ -165,7 +165,7 @@ def answerOne (b : Backend) (store : Store) (q : QTok) (implResult : String) : S
   let qname := Name.toLower qnameOut
   if q.opt ∧ q.version ≠ 0 then
     -- BADVERS: coredns `edns.Version` builds the reply (question section zeroed)
-    s!"rc=16,aa=0,id=ok,q=0,an=[],ns=[],ar=[]," ++ renderOpt q none true
+    s!"rc=16,aa=0,id=ok,q=same,an=[],ns=[],ar=[]," ++ renderOpt q none true
   else
   match findLocationTop b store qname q.ecs q.resolver with
   | .err | .panic => "noreply(rc=2)"
@@ -272,13 +272,8 @@ def specOne (z : Spec.Zone) (q : QTok) (implResult : String) : String :=
 
 def noSvcb : SvcbFn := fun _ => none
 
-def handle (st : St) (op : String) (args : List String) (impl : Option String) :
-    Option (St × Out) :=
-  match op, args with
-  | "serve", [ls, qs] | "servecs", [ls, qs] =>
-    -- `serve`: the Spec oracle judges rcode, flags and sections (C01/C02/C04); `servecs`: also the
-    -- OPT/ECS field (C10)
-    let withOpt := op = "servecs"
+/-- the `serve`/`servecs` op: model output and Spec verdict -/
+def serveOp (withOpt : Bool) (ls qs : String) (impl : Option String) : String × String :=
     let dropOpt (r : String) : String :=
       if withOpt then r else
       match r.splitOn ",ar=" with
@@ -316,7 +311,75 @@ def handle (st : St) (op : String) (args : List String) (impl : Option String) :
               else if dropOpt (stripExtra r) = dropOpt want then none
               else some s!"FAIL:{name}-q{i}:want={want}"
         bad.getD "ok"
-    some (st, { model := "#".intercalate outs, spec := verdict })
+    ("#".intercalate outs, verdict)
+
+/-- the `loc` op (C03): `FindLocation` for the name `ex.com` on every storage configuration -/
+def locOp (ls cs : String) (impl : Option String) : Out :=
+  let lines := (ls.splitOn ";").filterMap Bytes.ofHex
+  let qname : Bytes := [2, 0x65, 0x78, 3, 0x63, 0x6f, 0x6d, 0]
+  let clients : List (List UInt8 × Option Ecs) := (cs.splitOn ";").filterMap fun c =>
+    if c.startsWith "r" then (Bytes.ofHex (c.drop 1).toString).map fun ip => (ip, none)
+    else if c.startsWith "e" then
+      match (c.drop 1).toString.splitOn "/" with
+      | [f, s, a] =>
+        match f.toNat?, s.toNat?, Bytes.ofHex a with
+        | some f, some s, some a =>
+          some (Net.v4Prefix ++ [198, 51, 100, 7], some { family := f, sourceMask := s, scope := 0, addr := a })
+        | _, _, _ => none
+      | _ => none
+    else none
+  let outs := backends.map fun (name, b) =>
+    match compile b noSvcb lines with
+    | none => name ++ ":compile-error"
+    | some store =>
+      name ++ ":" ++ "~".intercalate (clients.map fun (ip, ecs) =>
+        match findLocationTop b store qname ecs ip with
+        | .ok (scope, loc) => Bytes.hex loc.locID ++ "/" ++ (match scope with | some sc => toString sc | none => "-")
+        | _ => "err")
+  let verdict : String :=
+    match impl, zoneOf lines with
+    | some i, some z =>
+      let implParts := i.splitOn "#"
+      let bad := backends.findSome? fun (name, _) =>
+        match implParts.find? (·.startsWith (name ++ ":")) with
+        | none => none
+        | some p =>
+          let rs := ((p.drop (name.length + 1)).toString).splitOn "~"
+          if rs = ["compile-error"] then none
+          else (clients.zipIdx.zip rs).findSome? fun (((ip, ecs), k), r) =>
+            let client : Spec.Client :=
+              { resolver := ipToNat ip, ecs := ecs.map fun e => (e.family, e.sourceMask, e.scope, ipToNat (to16 e.addr)) }
+            let lr := Spec.locate z [[0x65, 0x78], [0x63, 0x6f, 0x6d]] client
+            let want := Bytes.hex lr.loc ++ "/" ++ (match lr.scope with | some sc => toString sc | none => "-")
+            if r = want then none else some s!"FAIL:{name}-c{k}:want={want},got={r}"
+      bad.getD "ok"
+    | _, _ => "-"
+  { model := "#".intercalate outs, spec := verdict }
+
+def handle (st : St) (op : String) (args : List String) (impl : Option String) :
+    Option (St × Out) :=
+  match op, args with
+  | "serve", [ls, qs] =>
+    let (m, v) := serveOp false ls qs impl
+    some (st, { model := m, spec := v })
+  | "servecs", [ls, qs] =>
+    let (m, v) := serveOp true ls qs impl
+    some (st, { model := m, spec := v })
+  | "frame", [la, lb, qs] =>
+    -- C04: the same queries against a file and its edit (records of foreign locations only)
+    let (ia, ib) : Option String × Option String :=
+      match impl with
+      | some i =>
+        match i.splitOn "}B{" with
+        | [a, b] => (some ((a.drop 2).toString), some ((b.dropEnd 1).toString))
+        | _ => (none, none)
+      | none => (none, none)
+    let (ma, va) := serveOp false la qs ia
+    let (mb, vb) := serveOp false lb qs ib
+    let v := if va.startsWith "FAIL" then va else if vb.startsWith "FAIL" then vb else if impl.isSome then "ok" else "-"
+    some (st, { model := "A{" ++ ma ++ "}B{" ++ mb ++ "}", spec := v })
+  | "loc", [ls, cs] =>
+    some (st, locOp ls cs impl)
   | _, _ => none
 
 end Driver.Serve
